@@ -31,7 +31,7 @@ theorem toMatrix_product (a b : ℝ) :
     SO2.toMatrix.M_mat (SO2.product.r a b) = SO2.toMatrix.M_mat a * SO2.toMatrix.M_mat b := by
   mat_entries <;> simp [cas_defs, cas_real, Matrix.mul_apply, Fin.sum_univ_succ, Real.cos_add, Real.sin_add] <;> ring
 theorem toMatrix_identity : SO2.toMatrix.M_mat (SO2.identity.r (α := ℝ)) = 1 := by
-  mat_entries <;> simp [cas_defs, cas_real]
+  mat_entries <;> simp [cas_defs, cas_real] <;> (try ring1)
 theorem toMatrix_inverse_left (a : ℝ) :
     SO2.toMatrix.M_mat (SO2.inverse.r a) * SO2.toMatrix.M_mat a = 1 := by
   mat_entries <;> cas_mat <;> nlinarith [Real.sin_sq_add_cos_sq a]
@@ -51,7 +51,7 @@ theorem toMatrix_product (a b : Fin 3 → ℝ) :
     SE2.toMatrix.M_mat (SE2.product.r_vec a b) = SE2.toMatrix.M_mat a * SE2.toMatrix.M_mat b := by
   mat_entries <;> simp [cas_defs, cas_real, Matrix.mul_apply, Fin.sum_univ_succ, Real.cos_add, Real.sin_add] <;> ring
 theorem toMatrix_identity : SE2.toMatrix.M_mat (SE2.identity.r_vec (α := ℝ)) = 1 := by
-  mat_entries <;> simp [cas_defs, cas_real]
+  mat_entries <;> simp [cas_defs, cas_real] <;> (try ring1)
 theorem toMatrix_inverse_left (a : Fin 3 → ℝ) :
     SE2.toMatrix.M_mat (SE2.inverse.r_vec a) * SE2.toMatrix.M_mat a = 1 := by
   have h := Real.sin_sq_add_cos_sq (a 2)
@@ -78,7 +78,7 @@ theorem toMatrix_product (a b : Fin 2 → ℝ) :
     R2.toMatrix.M_mat (R2.product.r_vec a b) = R2.toMatrix.M_mat a * R2.toMatrix.M_mat b := by
   mat_entries <;> cas_mat <;> ring
 theorem toMatrix_identity : R2.toMatrix.M_mat (R2.identity.r_vec (α := ℝ)) = 1 := by
-  mat_entries <;> simp [cas_defs, cas_real]
+  mat_entries <;> simp [cas_defs, cas_real] <;> (try ring1)
 theorem toMatrix_inverse_left (a : Fin 2 → ℝ) :
     R2.toMatrix.M_mat (R2.inverse.r_vec a) * R2.toMatrix.M_mat a = 1 := by
   mat_entries <;> cas_mat
@@ -96,7 +96,7 @@ theorem toMatrix_product (a b : Fin 3 → ℝ) :
     R3.toMatrix.M_mat (R3.product.r_vec a b) = R3.toMatrix.M_mat a * R3.toMatrix.M_mat b := by
   mat_entries <;> cas_mat <;> ring
 theorem toMatrix_identity : R3.toMatrix.M_mat (R3.identity.r_vec (α := ℝ)) = 1 := by
-  mat_entries <;> simp [cas_defs, cas_real]
+  mat_entries <;> simp [cas_defs, cas_real] <;> (try ring1)
 theorem toMatrix_inverse_left (a : Fin 3 → ℝ) :
     R3.toMatrix.M_mat (R3.inverse.r_vec a) * R3.toMatrix.M_mat a = 1 := by
   mat_entries <;> cas_mat
@@ -115,9 +115,9 @@ namespace SO3Quat
 theorem toMatrix_spec (a : Fin 4 → ℝ) : SO3Quat.toMatrix.M_mat a = qmat a := by
   mat_entries <;> simp [cas_defs, cas_real, qmat] <;> ring
 theorem product_spec (a b : Fin 4 → ℝ) : SO3Quat.product.r_vec a b = qmul a b := by
-  funext i; fin_cases i <;> simp [cas_defs, cas_real, qmul]
+  funext i; fin_cases i <;> simp [cas_defs, cas_real, qmul] <;> (try ring1)
 theorem inverse_spec (a : Fin 4 → ℝ) : SO3Quat.inverse.r_vec a = qconj a := by
-  funext i; fin_cases i <;> simp [cas_defs, cas_real, qconj]
+  funext i; fin_cases i <;> simp [cas_defs, cas_real, qconj] <;> (try ring1)
 /-- holds for every pair of quaternions, unit or not -/
 theorem toMatrix_product (a b : Fin 4 → ℝ) :
     SO3Quat.toMatrix.M_mat (SO3Quat.product.r_vec a b)
@@ -127,7 +127,7 @@ theorem product_unit (a b : Fin 4 → ℝ) (ha : qnormSq a = 1) (hb : qnormSq b 
     qnormSq (SO3Quat.product.r_vec a b) = 1 := by
   rw [product_spec, qnormSq_mul, ha, hb]; norm_num
 theorem toMatrix_identity : SO3Quat.toMatrix.M_mat (SO3Quat.identity.r_vec (α := ℝ)) = 1 := by
-  mat_entries <;> simp [cas_defs, cas_real]
+  mat_entries <;> simp [cas_defs, cas_real] <;> (try ring1)
 theorem toMatrix_inverse_left (a : Fin 4 → ℝ) (h : qnormSq a = 1) :
     SO3Quat.toMatrix.M_mat (SO3Quat.inverse.r_vec a) * SO3Quat.toMatrix.M_mat a = 1 := by
   rw [toMatrix_spec, toMatrix_spec, inverse_spec, qmat_conj_mul, h]; simp
@@ -165,9 +165,9 @@ theorem toMatrix_product (a b : Fin 3 → ℝ) (h : mrpDen a b ≠ 0) :
       = SO3Mrp.toMatrix.M_mat a * SO3Mrp.toMatrix.M_mat b := by
   simp only [toMatrix_spec, product_spec, mrpMat_mul a b h]
 theorem toMatrix_identity : SO3Mrp.toMatrix.M_mat (SO3Mrp.identity.r_vec (α := ℝ)) = 1 := by
-  mat_entries <;> simp [cas_defs, cas_real]
+  mat_entries <;> simp [cas_defs, cas_real] <;> (try ring1)
 theorem inverse_spec (a : Fin 3 → ℝ) : SO3Mrp.inverse.r_vec a = -a := by
-  funext i; fin_cases i <;> simp [cas_defs, cas_real]
+  funext i; fin_cases i <;> simp [cas_defs, cas_real] <;> (try ring1)
 theorem toMatrix_inverse_left (a : Fin 3 → ℝ) :
     SO3Mrp.toMatrix.M_mat (SO3Mrp.inverse.r_vec a) * SO3Mrp.toMatrix.M_mat a = 1 := by
   rw [toMatrix_spec, toMatrix_spec, inverse_spec]
@@ -191,10 +191,10 @@ theorem toMatrix_product (a b : Fin 9 → ℝ) :
       = SO3Dcm.toMatrix.M_mat a * SO3Dcm.toMatrix.M_mat b := by
   mat_entries <;> cas_mat <;> ring
 theorem toMatrix_identity : SO3Dcm.toMatrix.M_mat (SO3Dcm.identity.r_vec (α := ℝ)) = 1 := by
-  mat_entries <;> simp [cas_defs, cas_real]
+  mat_entries <;> simp [cas_defs, cas_real] <;> (try ring1)
 theorem toMatrix_inverse (a : Fin 9 → ℝ) :
     SO3Dcm.toMatrix.M_mat (SO3Dcm.inverse.r_vec a) = (SO3Dcm.toMatrix.M_mat a).transpose := by
-  mat_entries <;> simp [cas_defs, cas_real]
+  mat_entries <;> simp [cas_defs, cas_real] <;> (try ring1)
 theorem toMatrix_inverse_left (a : Fin 9 → ℝ)
     (h : (SO3Dcm.toMatrix.M_mat a).transpose * SO3Dcm.toMatrix.M_mat a = 1) :
     SO3Dcm.toMatrix.M_mat (SO3Dcm.inverse.r_vec a) * SO3Dcm.toMatrix.M_mat a = 1 := by
@@ -210,7 +210,7 @@ theorem identity_right (a : Fin 9 → ℝ) : SO3Dcm.product.r_vec a (SO3Dcm.iden
 /-- the matrix-to-element conversion returns the same element -/
 theorem fromMatrix_toMatrix (a : Fin 9 → ℝ) :
     SO3Dcm.fromMatrix.r_vec (fun i j => SO3Dcm.toMatrix.M_mat a i j) = a := by
-  funext i; fin_cases i <;> simp [cas_defs, cas_real]
+  funext i; fin_cases i <;> simp [cas_defs, cas_real] <;> (try ring1)
 end SO3Dcm
 
 /-! ## from_Matrix on SO(2), SE(2): same element back for θ in (-π, π] -/
@@ -233,7 +233,7 @@ theorem toMatrix_fromMatrix_toMatrix (a : ℝ) :
     rw [Complex.cos_arg hz, hn, Complex.exp_ofReal_mul_I_re]; simp
   have hs : Real.sin (Complex.arg (Complex.exp (a * Complex.I))) = Real.sin a := by
     rw [Complex.sin_arg, hn, Complex.exp_ofReal_mul_I_im]; simp
-  mat_entries <;> simp [cas_defs, cas_real, CasReal.atan2, key, hc, hs]
+  mat_entries <;> simp [cas_defs, cas_real, CasReal.atan2, key, hc, hs] <;> (try ring1)
 end SO2
 
 namespace SE2
@@ -247,7 +247,7 @@ theorem toMatrix_fromMatrix_toMatrix (a : Fin 3 → ℝ) :
     rw [Complex.cos_arg hz, hn, Complex.exp_ofReal_mul_I_re]; simp
   have hs : Real.sin (Complex.arg (Complex.exp ((a 2) * Complex.I))) = Real.sin (a 2) := by
     rw [Complex.sin_arg, hn, Complex.exp_ofReal_mul_I_im]; simp
-  mat_entries <;> simp [cas_defs, cas_real, CasReal.atan2, key, hc, hs]
+  mat_entries <;> simp [cas_defs, cas_real, CasReal.atan2, key, hc, hs] <;> (try ring1)
 end SE2
 
 /-! ## SE(3) -/
@@ -259,7 +259,7 @@ theorem toMatrix_product (a b : Fin 7 → ℝ) :
       = SE3Quat.toMatrix.M_mat a * SE3Quat.toMatrix.M_mat b := by
   mat_entries <;> cas_mat <;> ring
 theorem toMatrix_identity : SE3Quat.toMatrix.M_mat (SE3Quat.identity.r_vec (α := ℝ)) = 1 := by
-  mat_entries <;> simp [cas_defs, cas_real]
+  mat_entries <;> simp [cas_defs, cas_real] <;> (try ring1)
 theorem toMatrix_inverse_left (a : Fin 7 → ℝ) (h : qnormSq (rot a) = 1) :
     SE3Quat.toMatrix.M_mat (SE3Quat.inverse.r_vec a) * SE3Quat.toMatrix.M_mat a = 1 := by
   have h' : a 3 ^ 2 + a 4 ^ 2 + a 5 ^ 2 + a 6 ^ 2 = 1 := by simpa [qnormSq, rot] using h
@@ -307,9 +307,9 @@ theorem toMatrix_product (a b : Fin 6 → ℝ) (h : mrpDen (rot a) (rot b) ≠ 0
       = SE3Mrp.toMatrix.M_mat a * SE3Mrp.toMatrix.M_mat b := by
   rw [toMatrix_spec, toMatrix_spec, toMatrix_spec, se3Mat_mul, product_rot, product_tr, mrpMat_mul _ _ h]
 theorem toMatrix_identity : SE3Mrp.toMatrix.M_mat (SE3Mrp.identity.r_vec (α := ℝ)) = 1 := by
-  mat_entries <;> simp [cas_defs, cas_real]
+  mat_entries <;> simp [cas_defs, cas_real] <;> (try ring1)
 theorem inverse_rot (a : Fin 6 → ℝ) : rot (SE3Mrp.inverse.r_vec a) = -rot a := by
-  funext i; fin_cases i <;> simp [cas_defs, cas_real, rot]
+  funext i; fin_cases i <;> simp [cas_defs, cas_real, rot] <;> (try ring1)
 theorem inverse_tr (a : Fin 6 → ℝ) :
     tr (SE3Mrp.inverse.r_vec a) = -((mrpMat (-rot a)).mulVec (tr a)) := by
   have h : (1 + (a 3 * a 3 + a 4 * a 4 + a 5 * a 5)) ≠ 0 := by
@@ -341,7 +341,7 @@ theorem toMatrix_product (a b : Fin 10 → ℝ) :
       = SE23Quat.toMatrix.M_mat a * SE23Quat.toMatrix.M_mat b := by
   mat_entries <;> cas_mat <;> ring
 theorem toMatrix_identity : SE23Quat.toMatrix.M_mat (SE23Quat.identity.r_vec (α := ℝ)) = 1 := by
-  mat_entries <;> simp [cas_defs, cas_real]
+  mat_entries <;> simp [cas_defs, cas_real] <;> (try ring1)
 theorem toMatrix_inverse_left (a : Fin 10 → ℝ) (h : qnormSq (rot a) = 1) :
     SE23Quat.toMatrix.M_mat (SE23Quat.inverse.r_vec a) * SE23Quat.toMatrix.M_mat a = 1 := by
   have h' : a 6 ^ 2 + a 7 ^ 2 + a 8 ^ 2 + a 9 ^ 2 = 1 := by simpa [qnormSq, rot] using h
@@ -394,9 +394,9 @@ theorem toMatrix_product (a b : Fin 9 → ℝ) (h : mrpDen (rot a) (rot b) ≠ 0
   rw [toMatrix_spec, toMatrix_spec, toMatrix_spec, se23Mat_mul, product_rot, product_pos, product_vel,
     mrpMat_mul _ _ h]
 theorem toMatrix_identity : SE23Mrp.toMatrix.M_mat (SE23Mrp.identity.r_vec (α := ℝ)) = 1 := by
-  mat_entries <;> simp [cas_defs, cas_real]
+  mat_entries <;> simp [cas_defs, cas_real] <;> (try ring1)
 theorem inverse_rot (a : Fin 9 → ℝ) : rot (SE23Mrp.inverse.r_vec a) = -rot a := by
-  funext i; fin_cases i <;> simp [cas_defs, cas_real, rot]
+  funext i; fin_cases i <;> simp [cas_defs, cas_real, rot] <;> (try ring1)
 theorem inverse_pos (a : Fin 9 → ℝ) :
     pos (SE23Mrp.inverse.r_vec a) = -((mrpMat (-rot a)).mulVec (pos a)) := by
   have h : (1 + (a 6 * a 6 + a 7 * a 7 + a 8 * a 8)) ≠ 0 := by
